@@ -40,39 +40,52 @@ CountOf(s) == IF "n" \in DOMAIN s THEN s.n ELSE Size(s.pool)    \* observed coun
 PoolMsgTxs(o) == UNION {{r.t : r \in m.res} : m \in {x \in OutOf(o) : x.k = "pool"}}
 
 (* the monitor: C37 on one observed step (pre, event, post) ****************)
+(* The monitor is total: it never blocks and never leaves the domain of a function, whatever was recorded.  Every clause  *)
+(* that an event breaks is printed as <<"MONFAIL", line, op, clause>> and the run goes on with the observed state.       *)
+Clause(name, cond) == cond \/ PrintT(<<"MONFAIL", l, E.op, name>>)
 Same(pre, post, S) == \A t \in S : t \in DOMAIN post.pool /\ post.pool[t] = pre.pool[t]
+FullyVerified(o) == \A i \in 1..Len(o.pool) : o.pool[i].sl /\ o.pool[i].h >= 0
 MonStep(pre, e, o, post) ==
     LET gone == DOMAIN pre.pool \ DOMAIN post.pool
         kept == DOMAIN pre.pool \cap DOMAIN post.pool
-        new  == DOMAIN post.pool \ DOMAIN pre.pool IN
-    /\ NoRepeat(Listed(o)) /\ o.n = Len(o.pool)                   \* one entry per hash
-    /\ Same(pre, post, kept)                                      \* an entry is never replaced by a second copy
-    /\ e.op = "admit" => /\ post.pool = pre.pool
-                         /\ (CountOf(pre) >= CAP /\ e.t \notin DOMAIN pre.pend) => e.t \notin DOMAIN post.pend
-    /\ e.op = "rsp" => gone = {} /\ new \subseteq {e.t} /\ (new # {} => e.err = "ok")
+        new  == DOMAIN post.pool \ DOMAIN pre.pool
+        txs  == PoolMsgTxs(o)
+        poolmsgs == {m \in OutOf(o) : m.k = "pool"}
+        blkmsgs  == {m \in OutOf(o) : m.k = "blk"} IN
+    /\ Clause("one-entry-per-hash", NoRepeat(Listed(o)) /\ o.n = Len(o.pool))
+    /\ Clause("entry-replaced-by-second-copy", Same(pre, post, kept))
+    \* the pool holds verified transactions: both validators' results are recorded on every entry
+    /\ Clause("entry-without-both-verifications", FullyVerified(o))
+    /\ Clause("capacity", o.n <= CAP) 
+    /\ e.op = "admit" =>
+          /\ Clause("admit-changed-the-pool", post.pool = pre.pool)
+          /\ Clause("admitted-at-full-pool", (CountOf(pre) >= CAP /\ e.t \notin DOMAIN pre.pend) => e.t \notin DOMAIN post.pend)
+    /\ e.op = "rsp" =>
+          /\ Clause("verify-result-removed-or-added-other-entries", gone = {} /\ new \subseteq {e.t})
+          /\ Clause("entry-added-on-failed-verification", new # {} => e.err = "ok")
+          /\ Clause("pool-keeps-tx-whose-verification-failed", e.err # "ok" => e.t \notin DOMAIN post.pool)
+          \* a stateful answer older than the height the server verifies against is not a verification for that height
+          /\ Clause("entry-added-on-outdated-stateful-result", (new # {} /\ e.typ = "sf") => e.h >= pre.height)
     /\ e.op = "getpool" =>
-          LET txs == PoolMsgTxs(o) IN
-          /\ new = {}
-          /\ txs \subseteq Fresh(pre.pool, e.h)
-          /\ \A m \in OutOf(o) : m.k = "pool" => \A r \in m.res : r.h = pre.pool[r.t]
-          /\ (e.by /\ MAXTX > 0) => Cardinality(txs) <= MAXTX
-          /\ gone \subseteq Stale(pre.pool, e.h) /\ gone \subseteq DOMAIN post.pend
-          /\ (Cardinality(txs) < GetCount(pre.pool, e.by)) => gone = Stale(pre.pool, e.h)
+          /\ Clause("getpool-added-entries", new = {})
+          /\ Clause("handed-out-not-verified-for-the-height", txs \subseteq Fresh(pre.pool, e.h))
+          /\ Clause("handed-out-entry-differs-from-pool", \A m \in poolmsgs : \A r \in m.res : r.t \in DOMAIN pre.pool /\ r.h = pre.pool[r.t])
+          /\ Clause("handed-out-more-than-configured", (e.by /\ MAXTX > 0) => Cardinality(txs) <= MAXTX)
+          /\ Clause("removed-entry-not-old-or-not-reverified", gone \subseteq Stale(pre.pool, e.h) /\ gone \subseteq DOMAIN post.pend)
+          /\ Clause("old-entries-not-reported", (Cardinality(txs) < GetCount(pre.pool, e.by)) => gone = Stale(pre.pool, e.h))
     /\ e.op = "blocksaved" =>
-          /\ new = {} /\ DOMAIN post.pool \cap Range(e.ts) = {}                   \* the listed ones leave ...
-          /\ gone \ Range(e.ts) \subseteq DOMAIN post.pend                        \* ... the others stay or are re-verified
+          /\ Clause("clean-added-or-kept-listed", new = {} /\ DOMAIN post.pool \cap Range(e.ts) = {})     \* the listed ones leave ...
+          /\ Clause("clean-lost-unlisted", gone \ Range(e.ts) \subseteq DOMAIN post.pend)                \* ... the others stay or are re-verified
     /\ e.op = "verifyblock" =>
-          /\ new = {}
-          /\ NoRepeat(e.ts) => gone = Range(e.ts) \cap Stale(pre.pool, e.h) /\ gone \subseteq DOMAIN post.pend
-          /\ \A m \in OutOf(o) : m.k = "blk" => \A r \in m.res : (r.err = "ok" => r.h >= e.h)
+          /\ Clause("verifyblock-added-entries", new = {})
+          /\ Clause("verifyblock-removal-not-exactly-the-old-listed",
+                    NoRepeat(e.ts) => gone = Range(e.ts) \cap Stale(pre.pool, e.h) /\ gone \subseteq DOMAIN post.pend)
+    \* whenever the server tells consensus that a block's transactions are verified, the heights are at or above the block's
+    /\ Clause("block-result-below-requested-height",
+              \A m \in blkmsgs : \A r \in m.res : (r.err = "ok" /\ e.op = "verifyblock") => r.h >= e.h)
 
-(* the capacity clause of C37 on the observed pool count *)
-PropC37Cap(o) == o.n <= CAP
-(* monitor mode never blocks: every event that breaks a clause is printed and the run goes on with the observed state *)
 Step(s2) == IF Strict THEN st' = s2 /\ ObsOK(s2, E.obs)
-            ELSE /\ st' = FromObs(E.obs)
-                 /\ (MonStep(st, E, E.obs, st') \/ PrintT(<<"MONFAIL", l, E.op>>))
-                 /\ (PropC37Cap(E.obs) \/ PrintT(<<"CAPOVER", l, E.op>>))
+            ELSE st' = FromObs(E.obs) /\ MonStep(st, E, E.obs, st')
 
 TReset == IsEvent("reset") /\ st' = InitSt
 TAdmit == IsEvent("admit") /\ Step(AdmitF(st, E.t, E.src))
